@@ -1178,6 +1178,24 @@ func (c *Conn) writeRequest(ctx *Ctx) error {
 	atomic.StoreUint32(&ctx.streamID, id)
 	c.queueReq(id, ctx)
 
+	// The read loop may have taken a GOAWAY since CanOpenStream said yes. It
+	// fails the requests it finds in the table, and this one was not in it
+	// yet: opening the stream now would leave the request waiting for an answer
+	// the server has said it will not give. Nothing has been sent, so it can go
+	// on another connection.
+	if atomic.LoadUint32(&c.goAway) != 0 {
+		ReleaseHeaderField(hf)
+
+		if !c.takeReq(id) {
+			// The read loop did find it, and has failed it already.
+			return nil
+		}
+
+		atomic.StoreUint32(&ctx.streamID, 0)
+
+		return ErrNotAvailableStreams
+	}
+
 	if hasBody {
 		pb := &pendingBody{
 			ctx:  ctx,
